@@ -172,10 +172,12 @@ P["C11"] = dict(
 
 P["C12"] = dict(
     lean_targets=["JSight.Props.C12"],
-    obligations=ob("JSight.Props.C12", ("Props.C12.C12_once_exactly_once", "under every schedule the compile function starts at most once and all returned values agree")),
+    obligations=ob("JSight.Props.C12", ("Props.C12.C12_once_exactly_once", "under every schedule the compile function starts at most once and all returned values agree"),
+        ("Props.C12.C12_pool_result_is_own", "concurrent Example() over the shared buffer pool: under every schedule every goroutine's result is its own text"),
+        ("Props.C12.C12_pool_pinned_overwritten", "handing out the pooled buffer itself fails under a concrete schedule")),
     runs=[{"cmd": ["c12-concurrent"], "race": True}],
     partial="the protocol (first use compiles once, all see the same result) is a theorem over all schedules; data-race freedom and equality with the sequential run under the real Go memory model are exercised under the race detector",
-    level_text="Proof (partial): a small-step model of n goroutines racing to one sync.Once cell under an arbitrary schedule — the compile function is started at most once and every goroutine that returned got the same value (theorem, all schedules, any n). Runtime part: 2..32 goroutines with random operation mixes on shared and private schemas under the race detector, results compared with the sequential oracle.",
+    level_text="Proof (partial): a small-step model of n goroutines racing to one sync.Once cell under an arbitrary schedule — the compile function is started at most once and every goroutine that returned got the same value (theorem, all schedules, any n); and a small-step model of any number of goroutines running Example() over the shared buffer pool (get / write / copy out / put, interleaved arbitrarily): every result is the goroutine's own text (theorem, all schedules). Runtime part: 2..32 goroutines with random operation mixes on shared and private schemas under the race detector, results compared with the sequential oracle.",
     level_note="Trusted: Lean kernel; Go scheduler, memory model and race detector are runtime behaviour the model cannot exhibit; K-C12-allof known finding (stream off by default).",
     technique="Lean 4 invariant proof over schedules + race-detector runs")
 
